@@ -438,6 +438,7 @@ func init() {
 			}
 			rep.Evaluations++
 		}
+		crossConnection(rep, distinct, g.r, tier)
 		rep.Distinct = len(distinct)
 	}
 
@@ -538,6 +539,31 @@ func init() {
 						h[8], h[9], h[10], h[11] = byte(tot>>24), byte(tot>>16), byte(tot>>8), byte(tot)
 						tail := make([]byte, r.Intn(21))
 						r.Read(tail)
+						if !try("bin", append(h, tail...), fmt.Sprintf("grid op=%d key=%d ext=%d total=%d", op, kl, el, tot)) {
+							rep.Distinct = len(distinct)
+							return
+						}
+					}
+				}
+			}
+		}
+		// key lengths at the top of the 16-bit field (key + extras beyond 65535), for the commands
+		// that carry a value and for gets
+		for _, op := range []int{0x01, 0x02, 0x03, 0x11, 0x12, 0x13, 0x0e, 0x0f, 0x00, 0x09, 0x1c, 0x1d} {
+			for _, kl := range []int{65520, 65527, 65528, 65529, 65535} {
+				for _, el := range []int{0, 4, 8, 255} {
+					for _, tot := range []uint32{0, 7, 100, 65535, uint32(kl + el), uint32(kl + el + 3)} {
+						h := binHeader(uint8(op), kl, el, 0, r.Uint32())
+						h[8], h[9], h[10], h[11] = byte(tot>>24), byte(tot>>16), byte(tot>>8), byte(tot)
+						tail := make([]byte, r.Intn(21))
+						if tot == 100 && el == 8 && kl >= 65528 {
+							// with the extras and a key of the declared length actually on the wire (a
+							// frame whose total is smaller than key + extras is refused at the header:
+							// nothing of this may be read, let alone sized for)
+							tail = make([]byte, kl+el+4)
+						}
+						r.Read(tail)
+						rep.Distribution["grid-long-key-lengths"]++
 						if !try("bin", append(h, tail...), fmt.Sprintf("grid op=%d key=%d ext=%d total=%d", op, kl, el, tot)) {
 							rep.Distinct = len(distinct)
 							return
@@ -708,5 +734,77 @@ func init() {
 			rep.Distribution["containment-rounds"]++
 		}
 		rep.Distinct = len(distinct)
+	}
+}
+
+// crossConnection: what one connection's parser decodes does not depend on what the parsers of
+// other connections are doing.  Connection A's request arrives in two pieces; while A's parser is
+// parked between them, connection B's parser decodes whole requests (first a batch of quiet gets,
+// then a set with other field values).  A must decode exactly what it decodes alone.
+func crossConnection(rep *Report, distinct map[string]bool, r *rand.Rand, tier string) {
+	rounds := 40
+	if tier == "thorough" {
+		rounds = 400
+	}
+	comps := compsOf("bin")
+	parseAll := func(data []byte) string {
+		p := comps.NewRequestParser(bufio.NewReader(bytes.NewReader(data)))
+		req, rt, _, err := p.Parse()
+		if err != nil {
+			return "error " + err.Error()
+		}
+		return reqString(req, rt)
+	}
+	for i := 0; i < rounds; i++ {
+		opqA, opqB := 0xa1a10000+uint32(i), 0xb2b20000+uint32(i)
+		a := Command{Kind: []string{"set", "append", "add", "touch", "delete"}[i%5], Key: []byte(fmt.Sprintf("alpha-%d", i)), Flags: 0x0a0a0a0a, Exptime: 77,
+			Data: bytes.Repeat([]byte{'A'}, 100+r.Intn(50)), Opaque: opqA}.Encode("bin")
+		b := Command{Kind: "set", Key: []byte("bee"), Flags: 0x0b0b0b0b, Exptime: 99, Data: []byte("BBBB"), Opaque: opqB}.Encode("bin")
+		batch := Command{Kind: "get", Keys: []GetKey{{Key: []byte("q1"), Opaque: 1, Quiet: true}, {Key: []byte("q2"), Opaque: 2, Quiet: true}, {Key: []byte("q3"), Opaque: 3}}}.Encode("bin")
+		want := parseAll(a)
+		cut := []int{24, 1, 12, 23, 30, len(a) - 1, 24 + r.Intn(len(a)-24)}[i%7]
+		if cut >= len(a) {
+			cut = len(a) - 1
+		}
+		// some connection decodes a batch of quiet gets
+		parseAll(batch)
+		pr, pw := io.Pipe()
+		got := make(chan string, 1)
+		go func() {
+			p := comps.NewRequestParser(bufio.NewReader(pr))
+			req, rt, _, err := p.Parse()
+			if err != nil {
+				got <- "error " + err.Error()
+				return
+			}
+			got <- reqString(req, rt)
+		}()
+		pw.Write(a[:cut])
+		time.Sleep(2 * time.Millisecond) // A's parser is parked inside its request
+		for k := 0; k < 3; k++ {
+			parseAll(b)
+			parseAll(batch)
+		}
+		pw.Write(a[cut:])
+		pw.Close()
+		res := ""
+		select {
+		case res = <-got:
+		case <-time.After(3 * time.Second):
+			res = "no result within 3 s"
+		}
+		pr.Close()
+		rep.Evaluations++
+		distinct[fmt.Sprintf("cross/%d", i%7)] = true
+		rep.Distribution["cross-connection-rounds"]++
+		if res != want {
+			rep.Violations = append(rep.Violations, Violation{What: fmt.Sprintf("a request that arrives in two pieces (cut after %d of %d bytes) while other connections decode a quiet-get batch and a set: decoded as [%s], alone it decodes as [%s]", cut, len(a), res, want),
+				Signature: "cross-connection-decode", Replay: map[string]interface{}{"request": canonN(400, a), "cut": cut, "other_connection_set": canonN(100, b), "other_connection_batch": canonN(200, batch)}})
+			if len(rep.Violations) > 6 {
+				return
+			}
+		} else {
+			rep.Validated++
+		}
 	}
 }
